@@ -523,6 +523,7 @@ func TestVerifMatch(t *testing.T) {
 		n++
 	}
 	n += vtinyCorpora(o, r)
+	n += vstrayTail(o)
 	o.stat("match", map[string]interface{}{"match_cases": n})
 }
 
@@ -603,6 +604,68 @@ func vtinyCorpora(o *vout, r *vrand) int {
 			}
 			w := voracleC02(c, info)
 			o.verdict("C02", id, w == "", len(info.res.Matches) > 0, fmt.Sprintf("tiny:%v:%s", th, in), map[string]interface{}{"what": w, "threshold": th, "input": in})
+		}
+	}
+	return n
+}
+
+// vstrayTail: the scorer's span trimming counts the words of a discarded leading / trailing diff
+// segment (textLength). For every word of the tokenizer's interchangeable-word table (either side,
+// read from the live table), a document of 100 distinct words holding that word near its end is
+// matched against a copy with a gap, one replaced word and a stray partial repetition of the end that
+// holds the word: the repetition is fused into the proposed range and discarded as a trailing
+// deletion, so the reported span depends on the word count of a segment containing the table word.
+func vstrayTail(o *vout) int {
+	alpha := func(i int) string {
+		s := ""
+		for {
+			s = string(rune('a'+i%26)) + s
+			i /= 26
+			if i == 0 {
+				return s
+			}
+		}
+	}
+	seen := map[string]bool{}
+	var ws []string
+	for k, v := range interchangeableWords {
+		for _, w := range []string{k, v} {
+			if !seen[w] && !strings.ContainsAny(w, " \n") && w != "" {
+				seen[w] = true
+				ws = append(ws, w)
+			}
+		}
+	}
+	sort.Strings(ws)
+	n := 0
+	for wi, w := range ws {
+		if !vthorough() && wi%3 != int(vseed()%3) && w != "sublicense" && w != "licence" {
+			continue
+		}
+		var k []string
+		for i := 0; i < 100; i++ {
+			k = append(k, "w"+alpha(i))
+		}
+		k[85] = w
+		c := NewClassifier(0.8)
+		c.AddContent("License", "K", "license.txt", []byte(strings.Join(k, " ")))
+		for vi, sep := range []string{"\n", " "} {
+			var in []string
+			in = append(in, k[0:50]...)
+			in = append(in, k[60:96]...)
+			in = append(in, "typo")
+			in = append(in, k[97:100]...)
+			in = append(in, k[79:98]...)
+			id := fmt.Sprintf("stray_%s_%d", w, vi)
+			data := []byte(strings.Join(in, sep))
+			info := vmatchCase(o, c, "", nil, id, data, false)
+			n++
+			if info.panicked {
+				continue
+			}
+			wh := voracleC02(c, info)
+			o.verdict("C02", id, wh == "", len(info.res.Matches) > 0, "stray:"+w+sep, map[string]interface{}{"what": wh, "word": w, "input": string(data)})
+			o.verdict("C03", id, voracleC03(c, info) == "", len(info.res.Matches) > 0, "stray:"+w+sep, map[string]interface{}{"what": voracleC03(c, info), "word": w, "input": string(data)})
 		}
 	}
 	return n
